@@ -206,7 +206,7 @@ func Main(run *common.Run, cases []Case, assumptions []string) {
 	wg.Wait()
 	for _, h := range hangs {
 		// an execution that never reaches a scheduling point again: the rest of that worker's cases is lost
-		run.Violation("execution-did-not-terminate", "an execution of scenario \""+h+"\" ran for more than "+ExecWallLimit.String()+" without ending (a loop without any scheduling point)", map[string]any{"scenario": h})
+		run.Violation("execution-did-not-terminate", "an execution of scenario \""+h+"\" reached no scheduling point for more than "+ExecWallLimit.String()+" (a loop without any scheduling point)", map[string]any{"scenario": h})
 		run.Exhaustive = false
 	}
 	if len(results) != len(cases) && len(run.Infra) == 0 && len(hangs) == 0 {
@@ -216,8 +216,9 @@ func Main(run *common.Run, cases []Case, assumptions []string) {
 	summarise(run, cases, results, assumptions)
 }
 
-// ExecWallLimit is how long one execution may run on the wall clock before the
-// worker gives up on it (executions normally take milliseconds).
+// ExecWallLimit is how long a running execution may go without reaching any scheduling point before the
+// worker gives up on it (executions normally take milliseconds; the gap between two scheduling points is
+// microseconds of straight-line code).
 var ExecWallLimit = 3 * time.Minute
 
 func worker(w string, cases []Case) {
@@ -242,9 +243,16 @@ func worker(w string, cases []Case) {
 		}()
 	}
 	go func() {
+		// not a time limit on executions (a loaded machine makes them slow, and every execution is bounded by
+		// its step limit anyway): what is caught here is an execution that stops reaching scheduling points
+		last, since := vm.Progress.Load(), time.Now()
 		for {
 			time.Sleep(2 * time.Second)
-			if st := vm.ExecStart.Load(); st != 0 && time.Since(time.Unix(0, st)) > ExecWallLimit {
+			if p := vm.Progress.Load(); p != last || vm.ExecStart.Load() == 0 {
+				last, since = p, time.Now()
+				continue
+			}
+			if time.Since(since) > ExecWallLimit {
 				// cannot be stopped from inside: report and leave
 				fmt.Printf("E1HANG %s\n", current.Load().(string))
 				os.Exit(3)
